@@ -187,6 +187,7 @@ class Sim:
         self.timer_fired = []
         self.boot_fired = []
         self.content_seq = 0
+        self.died = []
         reset_world()
         rig.install()
         dawgie.context.git_rev = rev
@@ -234,6 +235,23 @@ class Sim:
             self._spy_defer()
             sched.periodics(self.eng.factories[dawgie.Factories.events])
             self.boot_fired = [t for _s, t in self.timer_fired]
+
+    def reload_engine(self):
+        '''what an update does to the AE in a live process: the modules are
+        loaded again (new module, class, factory and instance objects) and
+        the schedule is rebuilt from the new factories'''
+        import dawgie.pl.scan
+
+        base = self.eng.base
+        dawgie.pl.scan.reset(base)
+        with warnings.catch_warnings():
+            warnings.simplefilter('ignore')
+            self.eng.factories = dawgie.pl.scan.for_factories(
+                dawgie.context.ae_base_path, base)
+        for u in self.units:
+            u.answered = True
+        self.farm.clear()
+        self.rebuild(())
 
     def rebuild(self, bumped=()):
         '''what FSM._pipeline does: build the schedule from the factories'''
@@ -718,6 +736,9 @@ class Sim:
                 raise RuntimeError('algorithm failed (injected)')
             if outcome == 2:
                 raise dawgie.NoValidOutputDataError('no valid data (injected)')
+            if outcome == 3:
+                # e.g. a wrapped command-line parser calling sys.exit(2)
+                raise SystemExit(2)
             sim.content_seq += 1
             for sv in alg.state_vectors():
                 for vn in sv:
@@ -766,6 +787,9 @@ class Sim:
                             len(self.workers) + 1, 0, self.rev)
         except NoWork:
             got_task = False
+        except SystemExit:
+            # the worker process died without reporting
+            state['died'] = True
         except ValueError as exc:
             # "Not the same software revisions!" / wrong message: the worker
             # was sent away
@@ -788,12 +812,14 @@ class Sim:
         u = state['unit']
         if not got_task or u is None:
             return None
+        if state.get('died'):
+            self.died.append(u)
         u.answered = True
         self.reply_job_queued = state.get('queued', True)
         newset = set()
         if outcome == 0:
             newset = {v for v in self.ref.values[u.jobid]}
-        return u, newset, OUTCOMES[outcome]
+        return u, newset, (OUTCOMES + ['failure'])[outcome]
 
     def expect_after_success(self, u, newset):
         '''(tag, target) pairs that must become pending after this report'''
@@ -900,17 +926,17 @@ class Sim:
                 else:
                     self.clock.advance([60, 3600, 86400, 7 * 86400][op[1] % 4])
         elif kind == 'work':
-            r = self.run_worker(op[1] % 3)
+            r = self.run_worker(op[1] % 4)
             if r is not None:
                 ev['unit'], ev['newset'], ev['outcome'] = r
                 ev['job_queued'] = self.reply_job_queued
                 ev['before'] = before = self.work_before
                 self.calls = self.calls[self.work_calls_at:]
                 # checks treat it as the reply it is
-                ev['op'] = ['rep', 'cluster.execute', op[1] % 3]
+                ev['op'] = ['rep', 'cluster.execute', op[1] % 4]
                 kind = 'rep'
             else:
-                ev['op'] = ['work-idle', op[1] % 3]
+                ev['op'] = ['work-idle', op[1] % 4]
         elif kind == 'exec':
             r = self.execute(op[1])
             if r is not None:
